@@ -10,7 +10,7 @@ import (
 func init() {
 	Registry["C25"] = RuleDef{Module: ".", Run: runC25,
 		Technique:   "guard rule (recycled-check dominates every use, re-evaluated per retry iteration), once-rule on the hand-back, must-precede rules on the cleaning of a returned wire, provenance rule on shared slots",
-		Explanation: "Decides (R25a) that every use of a dedicated client's wire is dominated by the nil arm of its recycled-check, taken inside the same retry iteration as the use (so a release during a back-off is noticed before the retry is sent), and that the cluster dedicated client obtains its wire only through acquire, which refuses a released client; (R25b) that the wire is handed back only by the caller that wins the mark compare-and-swap (single) or under `!mark` within the critical section that sets it (cluster); (R25c) that mux.Store resets the Pub/Sub hooks, cleans subscriptions and - when an invalidation callback had been installed, as observed before the hooks were reset - switches tracking off, all before the wire is stored back; that CleanSubscriptions unsubscribes everything and discards an open transaction on a pipelined wire, or closes a wire with a pending blocking command; (R25d) that wires taken from a pool are never installed into the multiplexer's shared slots. (R25e) every attempt of a dedicated client's call, retries included, passes check() before it uses the wire.",
+		Explanation: "Decides (R25a) that every use of a dedicated client's wire is dominated by the nil arm of its recycled-check, taken inside the same retry iteration as the use (so a release during a back-off is noticed before the retry is sent), and that the cluster dedicated client obtains its wire only through acquire, which refuses a released client; (R25b) that the wire is handed back only by the caller that wins the mark compare-and-swap (single) or under `!mark` within the critical section that sets it (cluster); (R25c) that mux.Store resets the Pub/Sub hooks, cleans subscriptions and - when an invalidation callback had been installed, as observed before the hooks were reset - switches tracking off, all before the wire is stored back; that CleanSubscriptions unsubscribes everything and discards an open transaction on a pipelined wire, or closes a wire with a pending blocking command; (R25d) that wires taken from a pool are never installed into the multiplexer's shared slots. (R25e) every attempt of a dedicated client's call, retries included, passes check() before it uses the wire. (R25f) a dedicated cluster client binds its wire only inside the critical section that found the recycle mark clear; (R25g) StopTimer, which decides whether a pooled connection may be lent to a session, counts every timer's Stop().",
 		NotDecided:  "interleaving with concurrent traffic (follows from the pool's exclusivity, C24, and R25d; not separately shown)."}
 	Registry["C27"] = RuleDef{Module: ".", Run: runC27,
 		Technique:   "sibling agreement of the three invalidation sinks (guard rule), unconditional-dispatch rule for pushes, must-pass rules on teardown and on the release of a tracking connection",
@@ -20,6 +20,7 @@ func init() {
 
 func runC25(r *Report) {
 	recheckBeforeRetryRule(r, "R25e")
+	bindUnderMarkRule(r)
 	p := r.P
 	const DS = "rueidis.(*dedicatedSingleClient)."
 	// R25a
@@ -380,4 +381,71 @@ func recheckBeforeRetryRule(r *Report, rule string) {
 		}
 	}
 	r.Anchor(rule, "dedicated client wire uses (>= 3)", n >= 3)
+}
+
+// bindUnderMarkRule (R25f): the wire of a dedicated cluster client is bound only inside the
+// critical section in which the recycle mark was found clear. If the lock is dropped between the
+// test and the binding, a release in between marks the client recycled and finds no wire to
+// return; the late binding then runs a command after release and leaks the connection.
+// (R25g) a pooled connection is handed to a dedicated session only if *all* of its timers could be
+// stopped: StopTimer's answer includes every timer's Stop() (a credentials refresh that already
+// fired would otherwise write AUTH into the session).
+func bindUnderMarkRule(r *Report) {
+	T := "rueidis.dedicatedClusterClient"
+	n := 0
+	for _, a := range r.P.FieldAccesses(T, "wire") {
+		st, ok := a.Instr.(*ssa.Store)
+		if !ok || IsNilConst(st.Val) {
+			continue
+		}
+		fn := a.Fn
+		n++
+		held := ComputeLockSets(fn, nil).At(a.Site)
+		locked := false
+		for l := range held {
+			if strings.HasSuffix(l, ".mu") {
+				locked = true
+			}
+		}
+		var markTest *Site
+		for _, g := range DomGuards(a.Block) {
+			if !g.Pol && strings.HasSuffix(Desc(g.Cond), ".mark") {
+				if in, isin := g.Cond.(ssa.Instruction); isin {
+					s := SiteOf(in)
+					markTest = &s
+				}
+			}
+		}
+		ok2 := locked && markTest != nil
+		why := ""
+		if ok2 {
+			for _, u := range Sites(fn, func(in ssa.Instruction) bool {
+				c, isc := in.(*ssa.Call) // deferred unlocks run at return and are not *ssa.Call
+				return isc && strings.HasSuffix(CalleeName(c), ").Unlock")
+			}) {
+				if Dominates(*markTest, u) && Dominates(u, a.Site) {
+					ok2, why = false, "the lock is released between the mark test and the binding"
+				}
+				if hit, _ := Reaches(*markTest, func(w Site) bool { return w.Instr == u.Instr }, nil); hit {
+					if hit2, _ := Reaches(u, func(w Site) bool { return w.Instr == a.Instr }, nil); hit2 {
+						ok2, why = false, "the lock can be released between the mark test and the binding"
+					}
+				}
+			}
+		}
+		r.ObSite("R25f", a.Site, "wire-bound-in-the-section-that-tested-the-mark", ok2, "the dedicated cluster client's wire is bound under its mutex, in the same critical section that found the recycle mark clear; "+why)
+	}
+	r.Anchor("R25f", "dedicatedClusterClient.wire bindings (>= 1)", n >= 1)
+	if fn := r.FnAnchor("R25g", "rueidis.(*pipe).StopTimer"); fn != nil {
+		stops := CallSites(fn, "time.(*Timer).Stop")
+		all := len(stops) >= 2
+		for _, s := range stops {
+			// the answer is used as data (assigned to the result) or as control (`a && b`)
+			used := len(Uses(s.Instr.(*ssa.Call))) > 0
+			if !used {
+				all = false
+			}
+		}
+		r.Ob("R25g", fn, "every-timer-stop-counts", fn.Pos(), all, "StopTimer answers true only if every timer of the connection (lifetime and credentials refresh) could be stopped before it fired")
+	}
 }
